@@ -79,13 +79,15 @@ pub struct Cfg {
     pub medium: Medium,
     /// 0 = "A": no raw sockets, SLAAC off, TCP/DNS peers over IPv4 (where available), DHCP discovering.
     /// 1 = "B": raw sockets (UDP, TCP, proto 253), SLAAC on, TCP/DNS peers over IPv6, DHCP requesting.
+    /// 2 = "C": like A, but the application has already close()d the established connection
+    ///          (FIN sent, FIN-WAIT-1); explored with sequences and a reduced mutation pass.
     pub variant: u8,
     /// 802.15.4 only: join an IPv6 multicast group (the main worlds do not: see run()).
     pub join_154: bool,
 }
 impl Cfg {
     pub fn name(&self) -> String {
-        format!("{}/{}{}", medium_name(self.medium), if self.variant == 0 { "A" } else { "B" }, if self.join_154 { "+group" } else { "" })
+        format!("{}/{}{}", medium_name(self.medium), ["A", "B", "C"][self.variant.min(2) as usize], if self.join_154 { "+group" } else { "" })
     }
     pub fn v6_peers(&self) -> bool {
         self.variant == 1 || self.medium == Medium::Ieee802154
@@ -582,6 +584,19 @@ impl World {
         let st = w.sockets.get::<tcp::Socket>(w.h.tcp_synsent).state();
         if st != tcp::State::SynSent {
             return Err(format!("tcp_synsent is {:?}", st));
+        }
+        // 4b. variant C: the application closes the established connection (FIN-WAIT-1)
+        if cfg.variant == 2 {
+            w.sockets.get_mut::<tcp::Socket>(w.h.tcp_est).close();
+            must(w.poll(), "close poll")?;
+            let out = w.take_tx();
+            if !out.iter().filter_map(|f| tx_l4(medium, f)).any(|v| v.proto == 6 && v.sport == P_EST && v.body[13] & FIN != 0) {
+                return Err("no FIN seen on the wire after close()".into());
+            }
+            let st = w.sockets.get::<tcp::Socket>(w.h.tcp_est).state();
+            if st != tcp::State::FinWait1 {
+                return Err(format!("tcp_est is {:?} after close()", st));
+            }
         }
         // 5. variant B: DHCP client driven to REQUESTING by an OFFER
         if cfg.variant == 1 && w.h.dhcp.is_some() {
